@@ -13,7 +13,7 @@ def make(rd, tier, seed, ev):
     ev.add_model(r, 'PlanGen: enumeration of all small timeline problems with their feasibility verdicts')
     rr = [s for s in shapes if s['fam'] == 'rr']
     pick = gen_problems.sample_shapes(rr, 250 if tier == 'quick' else 2500, seed)
-    gen = plancheck.write_problems(rd, [(gen_problems.shape_name(s), gen_problems.render_timeline(s)) for s in pick]) + plancheck.feature_problems(rd, ['timeline_rr', 'subclass'], seed, tier)[0]
+    gen = plancheck.write_problems(rd, [(gen_problems.shape_name(s), gen_problems.render_timeline(s)) for s in pick]) + plancheck.feature_problems(rd, ['timeline_rr', 'subclass', 'inactive'], seed, tier)[0]
     repo = [p for p in plancheck.repo_problems() if p[0].startswith(('RRTest', 'Matera', 'Education', 'incremental'))]
     if tier == 'quick':
         repo = repo[::3]
